@@ -219,6 +219,36 @@ Section Proofs.
     - right. exists t. now rewrite E.
   Qed.
 
+  (** *** server level: which reply each frame gets.  Unknown type: Rlerror with the frame's own
+      tag; body-level rejection (fixed part does not fit, decoder overruns): Rlerror with NOTAG;
+      otherwise the request is handled and answered under its tag. *)
+  Lemma frame_event_reply msize f :
+    well_delimited msize f -> reply_of (frame_event msize f) = [frame_reply lookup decode_ok f].
+  Proof.
+    intros [Hsz Hc]. pose proof (proj1 (hdr_check_spec _ _) Hc) as (H7 & Hm & Hs).
+    unfold Model.frame_event, Model.frame_reply, Model.recv. rewrite headerLength_eq.
+    destruct (N.ltb_spec (len f) 7); [lia|]. rewrite Hsz, Hc. cbn [negb].
+    destruct (plan_of _ _ _) as [t|fixed] eqn:Hp; cbn [fst]; rewrite len_dropN.
+    - destruct (N.leb_spec (len f - 7) (len f - 7)); [reflexivity|lia].
+    - destruct (N.leb_spec (len f - 7) (len f - 7)); [|lia].
+      pose proof (plan_body_le _ _ _ _ Hp) as Hf.
+      assert (Hpay : takeN (len f - 7 - fixed) (dropN fixed (dropN 7 f)) = dropN fixed (dropN 7 f))
+        by (apply takeN_all; rewrite !len_dropN; lia).
+      rewrite Hpay. unfold finish. destruct (decode_ok _ _ _); reflexivity.
+  Qed.
+
+  (** one reply per frame, in order, whatever mix of good and rejected frames; the frames after a
+      rejected one are still served *)
+  Theorem serve_replies closed msize fs rest :
+    Forall (well_delimited msize) fs ->
+    replies (serve closed msize (concat fs ++ rest)) =
+      map (frame_reply lookup decode_ok) fs ++ replies (serve closed msize rest).
+  Proof.
+    intros H. rewrite serve_frames by assumption. unfold Model.replies. rewrite flat_map_app. f_equal.
+    induction H as [|f fs Hf Hfs IH]; [reflexivity|].
+    cbn [map flat_map]. rewrite frame_event_reply by assumption. cbn [app]. now rewrite IH.
+  Qed.
+
   (** *** a refused size field shuts the connection down: nothing after it is served *)
   Theorem serve_bad_size closed msize s :
     7 <= len s -> hdr_check msize (le32 s) = false -> serve closed msize s = [EvShutdown].
